@@ -183,6 +183,25 @@ def check_writer(ctx, m, fn: ast.FunctionDef, label: str, informational: bool = 
                        "%s: the handle is closed on every path before the rename" % label if okc else
                        "%s: the temporary file opened without 'with' is not provably closed before it is renamed" % label,
                        construct="%s after close of %s" % (short(rc, 80), psrc))
+            # ... nor may a handler INSIDE the write block swallow the I/O error of a write: the block then ends normally, the 'else' /
+            # fall-through publishes an incomplete temporary file
+            if isinstance(on.ast, (ast.With, ast.AsyncWith)):
+                IO_NAMES = {"OSError", "IOError", "EnvironmentError", "Exception", "BaseException"}
+                for t_ in [x for st_ in on.ast.body for x in ast.walk(st_) if isinstance(x, ast.Try)]:
+                    writes_inside = any(isinstance(c_, ast.Call) and last_attr(c_) in ("write", "writelines", "dump", "print") or (
+                        isinstance(c_, ast.Call) and call_name(c_) == "print") for st_ in t_.body for c_ in ast.walk(st_))
+                    if not writes_inside:
+                        continue
+                    for h_ in t_.handlers:
+                        caught = {"*"} if h_.type is None else {source.src(x).split(".")[-1] for x in (h_.type.elts if isinstance(h_.type, ast.Tuple) else [h_.type])}
+                        swallows = bool(caught & (IO_NAMES | {"*"})) and not any(isinstance(x, ast.Raise) for st_ in h_.body for x in ast.walk(st_))
+                        ctx.ob("C14.A2-rename-on-success-only", h_, not swallows,
+                               "%s: the handler inside the write block re-raises (or cannot catch) the I/O error of a write" % label if not swallows else
+                               "%s: a handler inside the 'with open(%s)' block catches %s around the writes and carries on: a write that fails "
+                               "(EIO, ENOSPC) no longer reaches the publisher's 'except IOError', the block ends normally and the incomplete "
+                               "temporary file is renamed over the state file - neither the previous nor the new version" % (
+                                   label, psrc, "/".join(sorted(caught))),
+                               construct="%s: handler inside the write block of %s" % (label, psrc))
             ctx.ob("C14.A2-rename-on-success-only", rc, ok,
                    "%s: the rename is reachable only after the write completed normally" % label if ok else
                    "%s: the rename of %s over the state file is reachable from the handler that swallowed a failed write "
